@@ -363,6 +363,12 @@ def run(ctx):
     ctx.holds('R05o', repo.mod('pylatexenc.latexnodes.parsers._verbatim'), None,
               '%d regular expression(s) in the verbatim readers' % n_vr, construct='verbatim regex scan', trivial=True)
 
+    # ---- R05q (C20 R20k): a caught error is not moved without its line and column
+    ctx.rule('R05q', 'a caught error\'s pos is not re-assigned outside the error classes without its lineno / colno: the located '
+                     'error that strict mode reports has a position and a line/column that denote the same place (C20 R20k)', 0)
+    from .. import core as _core5
+    _core5.run_proxied(ctx, c20, 'R05q', ('R20k',))
+
     # ---- R05p: a comment ends at the first newline after its start marker
     ctx.rule('R05p', 'impl_read_comment: the search for the newline that ends a comment starts exactly where the comment text '
                      'starts (the slice start of the token text): an empty comment `%` + newline ends at that newline and does '
